@@ -97,8 +97,17 @@ class LinkPair:
             return {"t": "none", "v": False}
         return {"t": "other", "v": False}
 
-    def call(self, api, buf=None, ask_no_ack=False, fr=0, send_only=False, fates=None, bound_ns=3_000_000_000):
-        """api in send/write/resend.  buf: bytes/bytearray (kept by identity) or list of them"""
+    def call(self, api, buf=None, ask_no_ack=False, fr=0, send_only=False, fates=None, bound_ns=3_000_000_000, pre=None):
+        """api in send/write/resend.  buf: bytes/bytearray (kept by identity) or list of them.
+        pre (rf24_lite transmitter only, whose write() powers the radio up by itself): "sleep" = power down first
+        ("rx" = listen first is available for probing; sending straight out of RX mode is not a documented use and fails:
+        pipe 0 stays closed, so no ACK is heard)"""
+        if pre == "sleep":
+            self.tx.power = False
+            self.s.advance(200_000)
+        elif pre == "rx":
+            self.tx.listen = True
+            self.s.advance(300_000)
         if fates is not None:
             self.air.fates = list(fates)
         n0 = len(self.air.log)
@@ -131,7 +140,8 @@ class LinkPair:
         self.air.fates = []
         ev = dict(k="resend" if api == "resend" else ("sendlist" if isinstance(buf, (list, tuple)) else "send"), api=api,
                   ask_no_ack=bool(ask_no_ack), fr=fr, send_only=bool(send_only), exc=exc, res=self._res(res),
-                  t0=t0 // 1000, t1=t1 // 1000, air=self._air_since(n0), ntxcmd=ntx)
+                  t0=t0 // 1000, t1=t1 // 1000, air=self._air_since(n0), ntxcmd=ntx,
+                  lossfree=bool(not fates and getattr(self, "peer_ok", True)), pre=pre or "none")
         if api != "resend":
             if isinstance(buf, (list, tuple)):
                 ev["bufs"] = [list(b) for b in before]
